@@ -22,3 +22,165 @@ fn u8_mods_dependent_value() {
     }
     assert!(ModsDependentKind::Default(inner).with_mods() == w && ModsDependentKind::Custom(inner).with_mods() == w, "C17 with_mods flag read back");
 }
+
+fn any_mode() -> GameMode {
+    let k: u8 = kani::any();
+    match k % 4 {
+        0 => GameMode::Osu,
+        1 => GameMode::Taiko,
+        2 => GameMode::Catch,
+        _ => GameMode::Mania,
+    }
+}
+
+fn in_0_10() -> f32 {
+    let v: f32 = kani::any();
+    kani::assume(v >= 0.0 && v <= 10.0);
+    v
+}
+
+fn any_rate() -> f64 {
+    let c: f64 = kani::any();
+    kani::assume(c >= 0.01 && c <= 100.0);
+    c
+}
+
+//@ obl: id=U13.cs_hp_passthrough harness=u13_cs_hp_passthrough props=C17 tier=quick kind=proof
+//@ fns: BeatmapAttributesBuilder::build, BeatmapAttributesBuilder::{cs,hp,mods,clock_rate,mode}
+//@ bound: loop-free; all modes / convert flags, all legacy mod bits, clock rates in [0.01, 100], CS any non-NaN f32, HP in [0, 10]
+//@ clause: a CS or HP supplied with with_mods=true is reported back unchanged by build(), regardless of mods and clock rate; build() reports the clock rate it was given
+#[kani::proof]
+#[kani::unwind(3)]
+fn u13_cs_hp_passthrough() {
+    let cs: f32 = kani::any();
+    kani::assume(!cs.is_nan());
+    let hp = in_0_10();
+    let bits: u32 = kani::any();
+    let rate = any_rate();
+    let b = BeatmapAttributesBuilder::new().mode(any_mode(), kani::any()).mods(bits).clock_rate(rate).cs(cs, true).hp(hp, true);
+    let a = b.build();
+    assert!(a.cs.to_bits() == f64::from(cs).to_bits(), "C17 CS given with_mods=true is reported back unchanged");
+    assert!(a.hp.to_bits() == f64::from(hp).to_bits(), "C17 HP given with_mods=true is reported back unchanged");
+    assert!(a.clock_rate.to_bits() == rate.to_bits(), "C17 build reports the clock rate in effect");
+}
+
+//@ obl: id=U13.window_shape harness=u13_window_shape props=C17 tier=quick kind=proof
+//@ fns: BeatmapAttributesBuilder::hit_windows
+//@ bound: loop-free; all modes / convert flags, all legacy mod bits, clock rates in [0.01,100], AR/OD in [0,10], both with_mods flags
+//@ clause: ok / meh windows exist exactly where the mode has them (osu, catch: both; taiko: ok only; mania: neither); no window is NaN
+#[kani::proof]
+#[kani::unwind(3)]
+fn u13_window_shape() {
+    let mode = any_mode();
+    let b = BeatmapAttributesBuilder::new()
+        .mode(mode, kani::any())
+        .mods(kani::any::<u32>())
+        .clock_rate(any_rate())
+        .ar(in_0_10(), kani::any())
+        .od(in_0_10(), kani::any());
+    let w = b.hit_windows();
+    let (ok, meh) = match mode {
+        GameMode::Osu | GameMode::Catch => (true, true),
+        GameMode::Taiko => (true, false),
+        GameMode::Mania => (false, false),
+    };
+    assert!(w.od_ok.is_some() == ok && w.od_meh.is_some() == meh, "C17 ok/meh windows exist exactly where the mode defines them");
+    assert!(!w.ar.is_nan() && !w.od_great.is_nan(), "C17 windows are numbers");
+}
+
+fn rate_independent(mode: GameMode, ar: f32, od: f32) {
+    let bits: u32 = kani::any();
+    let (ar_wm, od_wm): (bool, bool) = (kani::any(), kani::any());
+    let base = BeatmapAttributesBuilder::new().mode(mode, kani::any()).mods(bits).ar(ar, ar_wm).od(od, od_wm);
+    let w1 = base.clone().clock_rate(any_rate()).hit_windows();
+    let w2 = base.clock_rate(any_rate()).hit_windows();
+    if od_wm {
+        assert!(w1.od_great.to_bits() == w2.od_great.to_bits(), "C17 OD given with_mods=true: great window independent of the clock rate");
+        assert!(w1.od_ok.map(f64::to_bits) == w2.od_ok.map(f64::to_bits), "C17 OD given with_mods=true: ok window independent of the clock rate");
+        assert!(w1.od_meh.map(f64::to_bits) == w2.od_meh.map(f64::to_bits), "C17 OD given with_mods=true: meh window independent of the clock rate");
+    }
+    if ar_wm {
+        assert!(w1.ar.to_bits() == w2.ar.to_bits(), "C17 AR given with_mods=true: preempt independent of the clock rate");
+    }
+}
+
+//@ obl: id=U13.with_mods_ignores_rate harness=u13_with_mods_ignores_rate props=C17 tier=quick kind=bounded
+//@ fns: BeatmapAttributesBuilder::hit_windows
+//@ bound: bounded: one concrete AR/OD pair (3.5, 8.25) in the quick tier, a grid in the thorough tier (symbolic values make the solver compare two copies of the same float circuit, which does not finish); osu/catch/taiko, all legacy mod bits, two arbitrary clock rates in [0.01,100], the two with_mods flags independent and symbolic
+//@ clause: an OD given with with_mods=true yields hit windows that do not depend on the clock rate (bit-identical for any two rates) whatever the AR flag is, and likewise the AR window for an AR given with with_mods=true - this is what makes the value come back unchanged from build()
+#[kani::proof]
+#[kani::unwind(3)]
+fn u13_with_mods_ignores_rate() {
+    let mode = any_mode();
+    kani::assume(!matches!(mode, GameMode::Mania));
+    rate_independent(mode, 3.5, 8.25);
+}
+
+//@ obl: id=U13.with_mods_ignores_rate.grid harness=u13_with_mods_ignores_rate_grid props=C17 tier=thorough kind=bounded budget=2400
+//@ fns: BeatmapAttributesBuilder::hit_windows
+//@ bound: bounded: AR/OD grid {0, 5, 8.25, 10} x {10, 5, 3.5, 0}; otherwise as U13.with_mods_ignores_rate
+//@ clause: as U13.with_mods_ignores_rate
+#[kani::proof]
+#[kani::unwind(3)]
+fn u13_with_mods_ignores_rate_grid() {
+    let mode = any_mode();
+    kani::assume(!matches!(mode, GameMode::Mania));
+    rate_independent(mode, 0.0, 10.0);
+    rate_independent(mode, 5.0, 5.0);
+    rate_independent(mode, 8.25, 3.5);
+    rate_independent(mode, 10.0, 0.0);
+}
+
+//@ obl: id=U13.hr_ez_order harness=u13_hr_ez_order props=C17 tier=quick kind=proof
+//@ fns: (the mod multiplier of BeatmapAttributesBuilder::hit_windows / build, restated)
+//@ bound: loop-free; all f32 in [0, 10]
+//@ clause: on [0,10] the HardRock value (v*1.4).min(10) is never below v and the Easy value v*0.5 never above it; with monotone windows (U13.monotone.*) HR never yields easier and EZ never harder values than no mod
+#[kani::proof]
+fn u13_hr_ez_order() {
+    let v = in_0_10();
+    assert!((v * 1.4).min(10.0) >= v && v * 0.5 <= v, "C17 HR raises and EZ lowers an attribute in [0,10]");
+    assert!((v * 1.3).min(10.0) >= v, "C17 HR raises CS");
+}
+
+macro_rules! monotone {
+    ($name:ident, $w:ident) => {
+        #[kani::proof]
+        fn $name() {
+            let (a, b) = (in_0_10(), in_0_10());
+            kani::assume(a <= b);
+            let (ra, rb) = (difficulty_range(f64::from(a), $w), difficulty_range(f64::from(b), $w));
+            assert!(ra >= rb, "C17 windows shrink (weakly) as the attribute grows");
+        }
+    };
+}
+
+//@ obl: id=U13.monotone.osu_great harness=u13_monotone_osu_great props=C17 tier=thorough kind=proof budget=2400
+//@ fns: difficulty_range
+//@ bound: loop-free; all pairs of f32 values in [0,10] (the call sites pass f64::from(f32))
+//@ clause: difficulty_range is monotone non-increasing on [0,10] for the osu! great window table
+monotone!(u13_monotone_osu_great, OSU_GREAT);
+//@ obl: id=U13.monotone.osu_ok harness=u13_monotone_osu_ok props=C17 tier=thorough kind=proof budget=2400
+//@ fns: difficulty_range
+//@ bound: as U13.monotone.osu_great
+//@ clause: monotone non-increasing for the osu! ok window table
+monotone!(u13_monotone_osu_ok, OSU_OK);
+//@ obl: id=U13.monotone.osu_meh harness=u13_monotone_osu_meh props=C17 tier=thorough kind=proof budget=2400
+//@ fns: difficulty_range
+//@ bound: as U13.monotone.osu_great
+//@ clause: monotone non-increasing for the osu! meh window table
+monotone!(u13_monotone_osu_meh, OSU_MEH);
+//@ obl: id=U13.monotone.taiko_great harness=u13_monotone_taiko_great props=C17 tier=thorough kind=proof budget=2400
+//@ fns: difficulty_range
+//@ bound: as U13.monotone.osu_great
+//@ clause: monotone non-increasing for the taiko great window table
+monotone!(u13_monotone_taiko_great, TAIKO_GREAT);
+//@ obl: id=U13.monotone.taiko_ok harness=u13_monotone_taiko_ok props=C17 tier=thorough kind=proof budget=2400
+//@ fns: difficulty_range
+//@ bound: as U13.monotone.osu_great
+//@ clause: monotone non-increasing for the taiko ok window table
+monotone!(u13_monotone_taiko_ok, TAIKO_OK);
+//@ obl: id=U13.monotone.ar harness=u13_monotone_ar props=C17 tier=thorough kind=proof budget=2400
+//@ fns: difficulty_range
+//@ bound: as U13.monotone.osu_great
+//@ clause: monotone non-increasing for the approach-rate (preempt) table
+monotone!(u13_monotone_ar, AR_WINDOWS);
